@@ -449,6 +449,41 @@ func c17(c *ctx) {
 			r.Check(okCh, "R6/challenge-source", c.p.Pos(hk.Pos()), "challenge = buffer[TwoAEADKeySize:]", "the challenge is no longer copied from the HKDF buffer's tail (beyond the two key ranges)")
 		}
 	}
+
+	// ------------------------------------------------------------------ R7
+	// a frame counter narrower than 64 bits wraps within a session's lifetime (2^32 frames): the same key/nonce pair then
+	// seals two frames, and a recorded frame replays. Structural necessary condition, not the arithmetic itself.
+	r.Rule("R7", "COVER", "the frame counter is 64 bits wide: every encoding/binary access in incrementNonce is Uint64 / PutUint64", 1)
+	if incr != nil {
+		rd, wr := 0, 0
+		for _, g := range bodyFuncs(incr, true) {
+			instrs(g, func(in ssa.Instruction) {
+				cc := callCommon(in)
+				if cc == nil {
+					return
+				}
+				sc := cc.StaticCallee()
+				if sc == nil || sc.Pkg == nil || sc.Pkg.Pkg.Path() != "encoding/binary" {
+					return
+				}
+				switch sc.Name() {
+				case "Uint64":
+					rd++
+					r.OK("R7/incrementNonce/read", c.p.Pos(in.Pos()), "64-bit read of the counter")
+				case "PutUint64", "AppendUint64":
+					wr++
+					r.OK("R7/incrementNonce/write", c.p.Pos(in.Pos()), "64-bit write of the counter")
+				default:
+					r.Bad("R7/incrementNonce/"+sc.Name(), c.p.Pos(in.Pos()), "incrementNonce accesses the frame counter with binary."+sc.Name()+": a counter narrower than 64 bits wraps within the life of a connection, after which a key/nonce pair is reused and recorded frames are accepted again")
+				}
+			})
+		}
+		if rd+wr == 0 {
+			r.OK("R7/incrementNonce/width", c.p.Pos(incr.Pos()), "the counter is not accessed through encoding/binary: its width is not decided by this rule")
+		} else {
+			r.Check(rd >= 1 && wr >= 1, "R7/incrementNonce/width", c.p.Pos(incr.Pos()), "counter read and written back as 64 bits", "incrementNonce reads or writes the counter as 64 bits on one side only")
+		}
+	}
 }
 
 // freshKey: every value the path can take is (derived from) the result of a key generation made by
